@@ -14,7 +14,7 @@ RULE = ('random runnable models mixing registered Linear/Conv2d layers with unsu
         'identity for unregistered ones) before/after step(); K-FAC state before/after eval-mode passes; outputs and '
         'autograd gradients of a deep-copied model without K-FAC; the set of gradients that changed is compared with the '
         'write set predicted by the Lean registration model; non-trivial = ≥1 registered and ≥1 unregistered parametrised module'
-        '; inputs cloned and compared (aliasing), 1x1 / single-channel / channels_last convolutions, an empty-batch iteration, float16 factors with large activations, attribute names containing wrapper prefixes; the registered set is compared with the eligible set computed from the statement; autograd gradients compared up to rounding')
+        '; inputs cloned and compared (aliasing), 1x1 / single-channel / channels_last convolutions, an empty-batch iteration, float16 factors with large activations, attribute names containing wrapper prefixes; the registered set is compared with the eligible set computed from the statement; autograd gradients compared up to rounding; pure float16 runs whose KL-clip statistic overflows to NaN while every gradient stays in range; float32 gradients of bfloat16/float16 weights (Tensor.grad_dtype)')
 TRUSTED = [
     'Lean 4.33 kernel; axioms audited ⊆ {propext, Classical.choice, Quot.sound}',
     'hand-written models: KV.Reg (which modules are registered = the write set) and KV.Precond/KV.Spec (eval passes are no-ops)',
@@ -250,6 +250,8 @@ def run(ctx):
         ctx.case(str(case) + str(it), nontrivial=True, sample=case)
         ctx.count(str(dt).split('.')[-1])
         ctx.count(method)
+    overflow_stream(ctx)
+    grad_dtype_stream(ctx)
     for (case, registered, changed), mo in zip(pend, ctx.model.ask(lines)):
         if mo is None:
             continue
@@ -257,6 +259,116 @@ def run(ctx):
         ctx.compare('write-set', case, str(regm), str(registered))
         # every gradient that changed belongs to the predicted write set
         ctx.compare('write-set-changed', case, 'subset', 'subset' if set(changed) <= set(regm) else f'changed {changed}')
+
+
+def overflow_stream(ctx):
+    """pure float16 models with stale second-order data and a loss spike: the raw and the preconditioned gradients stay far
+    inside the float16 range while the element-wise products entering the KL-clip statistic overflow with both signs (the
+    statistic is NaN).  Finite inputs must give finite gradients (the statement's last clause on registered gradients)."""
+    from kfac.preconditioner import KFACPreconditioner
+    rng = ctx.rng
+    hit = 0
+    for it in range(ctx.budget(12, 80)):
+        seed = rng.randrange(10**6)
+        torch.manual_seed(seed)
+        hid = rng.choice([6, 8, 10])
+        m = torch.nn.Sequential(torch.nn.Linear(6, hid), torch.nn.Tanh(), torch.nn.Linear(hid, 4)).half()
+        spike = rng.choice([300.0, 1000.0, 1000.0, 3000.0])
+        method = rng.choice(['eigen', 'eigen', 'inverse'])
+        case = {'stream': 'overflow', 'seed': seed, 'hidden': hid, 'spike': spike, 'method': method}
+        try:
+            p = KFACPreconditioner(m, factor_update_steps=5, inv_update_steps=5, factor_decay=0.05, damping=0.001, kl_clip=0.001,
+                                   lr=0.1, factor_dtype=torch.float32, compute_method=method)
+            for step, ls in enumerate([1.0, spike]):
+                base = torch.randn(16, 1)
+                x = (base + 0.05 * torch.randn(16, 6)).half()
+                y = torch.randn(16, 4).half()
+                m.zero_grad()
+                (((m(x) - y) ** 2).mean() * ls).backward()
+                raw = [q.grad.detach().clone() for q in m.parameters()]
+                fin_in = all(torch.isfinite(g).all().item() for g in raw)
+                vmax, nan_stat = 0.0, False
+                if step == 1:
+                    # the unclipped preconditioned gradients with the (stale) second-order data of step 0
+                    for _, lay in p._layers.values():
+                        lay.preconditioned_grad(damping=p.damping)
+                        v = lay.grad
+                        vmax = max(vmax, v.abs().max().item())
+                        prod = v * lay.module.get_grad()
+                        nan_stat = nan_stat or bool(torch.isinf(prod).any().item())
+                        lay.grad = None
+                p.step()
+                if step == 1:
+                    hit += int(nan_stat)
+                    ctx.count('overflowing-statistic' if nan_stat else 'ordinary-statistic')
+                    if fin_in and vmax < 30000.0:
+                        for n_, q in m.named_parameters():
+                            if not torch.isfinite(q.grad).all().item():
+                                ctx.fail(f'gradient of {n_} is not finite after step() although the raw gradients (max {max(g.abs().max().item() for g in raw):.4g}) '
+                                         f'and the unclipped preconditioned gradients (max {vmax:.4g}) are finite and inside the float16 range',
+                                         case, 'fp16-nonfinite')
+                                break
+                        ctx.evaluations += 1
+        except Exception as e:  # noqa: BLE001
+            ctx.fail(f'float16 run raised {type(e).__name__}: {e}', case, 'fp16-raised')
+            continue
+        ctx.case(str(case), nontrivial=True, sample=case)
+    ctx.count(f'overflow-cases-with-NaN-statistic={hit}')
+
+
+def grad_dtype_stream(ctx):
+    """gradient dtype different from the parameter dtype (Tensor.grad_dtype: bfloat16/float16 weights with float32 gradients,
+    either produced by autograd or installed by the training loop as `main' gradients): the written gradient keeps the dtype
+    of the gradient that was there, unregistered gradients are untouched"""
+    from kfac.preconditioner import KFACPreconditioner
+    if not hasattr(torch.Tensor, 'grad_dtype'):
+        ctx.count('grad_dtype-unsupported-by-this-torch')
+        return
+    rng = ctx.rng
+    for it in range(ctx.budget(12, 80)):
+        seed = rng.randrange(10**6)
+        torch.manual_seed(seed)
+        pdt = rng.choice([torch.bfloat16, torch.bfloat16, torch.float16])
+        variant = rng.choice(['autograd', 'installed'])
+        method = rng.choice(['eigen', 'inverse'])
+        kl = rng.choice([0.001, None])
+        case = {'stream': 'grad_dtype', 'seed': seed, 'param_dtype': str(pdt), 'variant': variant, 'method': method, 'kl_clip': kl}
+        try:
+            hid = rng.choice([4, 8])
+            m = torch.nn.Sequential(torch.nn.Linear(6, hid, bias=rng.random() < 0.7), torch.nn.Tanh(),
+                                    torch.nn.Linear(hid, 4, bias=rng.random() < 0.5), torch.nn.LayerNorm(4)).to(pdt)
+            for q in m.parameters():
+                q.grad_dtype = torch.float32 if variant == 'autograd' else None
+            p = KFACPreconditioner(m, compute_method=method, factor_dtype=torch.float32, inv_dtype=torch.float32, kl_clip=kl)
+            x = torch.randn(16, 6).to(pdt)
+            y = torch.randn(16, 4).to(pdt)
+            ((m(x) - y) ** 2).mean().backward()
+            if variant == 'installed':
+                for q in m.parameters():
+                    q.grad = q.grad.to(torch.float32)
+            before = {n_: q.grad.detach().clone() for n_, q in m.named_parameters()}
+            weights = {n_: q.detach().clone() for n_, q in m.named_parameters()}
+            registered = {f'{name}.{pn}' for module, (name, _) in p._layers.items() for pn, _ in module.named_parameters()}
+            p.step()
+            for n_, q in m.named_parameters():
+                g = q.grad
+                if not torch.equal(q.detach(), weights[n_]):
+                    ctx.fail(f'parameter {n_} changed', case, 'gd-param-changed')
+                if n_ not in registered:
+                    if g.dtype != before[n_].dtype or not torch.equal(g, before[n_]):
+                        ctx.fail(f'unregistered gradient {n_} was touched', case, 'gd-unregistered')
+                    continue
+                if g.dtype != before[n_].dtype or g.shape != before[n_].shape or not g.is_contiguous() or g.device != before[n_].device:
+                    ctx.fail(f'gradient of {n_}: dtype/shape/contiguity {before[n_].dtype}{tuple(before[n_].shape)} -> {g.dtype}{tuple(g.shape)}'
+                             f' contiguous={g.is_contiguous()}', case, 'gd-meta')
+                if not torch.isfinite(g).all().item():
+                    ctx.fail(f'gradient of {n_} is not finite', case, 'gd-nonfinite')
+            ctx.evaluations += 1
+        except Exception as e:  # noqa: BLE001
+            ctx.fail(f'step with float32 gradients of {pdt} weights raised {type(e).__name__}: {str(e).splitlines()[0][:200]}', case, 'gd-raised')
+            continue
+        ctx.case(str(case), nontrivial=True, sample=case)
+        ctx.count('grad_dtype-' + variant)
 
 
 def search(ctx):
